@@ -190,6 +190,8 @@ def floors(tier):
         "B:runs": 200 * k,
         "B:failures_notified": 60 * k,
         "B:external_stops_notified": 40 * k,
+        "B:runs_carried_on_after_failure": 40 * k,
+        "B:ended_by_failure_limit": 1 * k,
     })
     return f
 
@@ -1334,8 +1336,18 @@ def run_engine_b(spec):
         o.count("B:runs_with_external_stop")
     if r.exc is not None and type(r.exc).__name__ != "LoopBoundExceeded":
         msg = repr(r.exc)[:200]
-        tag = ":resume_of_non_paused_trial" if "Cannot resume trial_id" in msg else ""
-        o.violate("run_carries_on", f"B:tuner_run_raised:{type(r.exc).__name__}{tag}", {"error": msg, "kind": spec["kind"], "backend": spec["backend"]})
+        if type(r.exc).__name__ == "ValueError" and "failed" in msg and "Trial - " in msg:
+            # the documented failure limit: run() raises once MORE than max_failures trials have failed
+            if n_fail > p["max_failures"]:
+                o.count("B:ended_by_failure_limit")
+            else:
+                o.violate("run_carries_on", "B:run_aborted_although_failures_within_max_failures",
+                          {"error": msg, "failures_notified": n_fail, "max_failures": p["max_failures"], "kind": spec["kind"]})
+        else:
+            tag = ":resume_of_non_paused_trial" if "Cannot resume trial_id" in msg else ""
+            o.violate("run_carries_on", f"B:tuner_run_raised:{type(r.exc).__name__}{tag}", {"error": msg, "kind": spec["kind"], "backend": spec["backend"]})
+    elif r.exc is None and n_fail > 0:
+        o.count("B:runs_carried_on_after_failure")
     sub = Obs()
     sig = c01.check_trace(sub, r.rec.events, p["n_workers"], True, spec["kind"], exc=r.exc)
     for v in sub.violations:
